@@ -117,12 +117,12 @@ CHANGE_SCORES = [None, {"cls": "CUSUM"}, {"cls": "L2Cost"}, {"cls": "ChangeScore
                  {"cls": "GaussianCovCost"}]
 LOCAL_SCORES = [None, {"cls": "L2Cost"}, {"cls": "GaussianVarCost"},
                 {"cls": "LocalAnomalyScore", "cost": {"cls": "L2Cost"}}, {"cls": "GaussianCovCost"}]
-SAVINGS = [None, {"cls": "L2Saving"}, {"cls": "L2Cost", "param": 0.0},
+SAVINGS = [None, {"cls": "L2Saving"}, {"cls": "L2Cost", "param": 0.0}, {"cls": "L2Cost", "param": 0.5},
            {"cls": "Saving", "baseline_cost": {"cls": "L2Cost", "param": 0.0}},
            {"cls": "Saving", "baseline_cost": {"cls": "GaussianVarCost", "param": {"tuple": [0.0, 1.0]}}},
            {"cls": "GaussianVarCost", "param": {"tuple": [0.0, 1.0]}}]
 SAVINGS_MV = SAVINGS + [{"cls": "Saving", "baseline_cost": {"cls": "GaussianCovCost", "param": {"tuple": [0.0, 1.0]}}}]
-POINT_SAVINGS = [None, {"cls": "L2Saving"}, {"cls": "L2Cost", "param": 0.0}]
+POINT_SAVINGS = [None, {"cls": "L2Saving"}, {"cls": "L2Cost", "param": 0.0}, {"cls": "L2Cost", "param": 0.5}]
 
 scale_strategy = st.one_of(st.sampled_from([0.0, 0.3, 1.0, 2.0]), st.floats(0.0, 3.0, allow_nan=False))
 tuned_scale_strategy = st.one_of(st.none(), scale_strategy, scale_strategy)
